@@ -705,13 +705,17 @@ def vmapped_case(rng, levels):
     g = Gen(rng)
     sizes = [rng.choice([1, 2, 3]) for _ in range(levels)]
     shape = rng.choice([(), (2,), (3,)])
-    kind = rng.choice(["la", "br", "br_la", "la_br_cont", "nt_la", "wh_same", "pair", "ident"])
+    kind = rng.choice(["la", "br", "br_la", "la_br_cont", "nt_la", "wh_same", "pair", "ident", "la_bool", "la_int"])
     tags = [g.t() for _ in range(6)]
     mask = g.mask(shape)
 
     def mk(x, y):
         if kind == "la":
             return Lambda(make_fn(0, tags[0]), x, y)
+        if kind == "la_bool":   # a mapped BOOLEAN array leaf (a mask computed per slice) next to the float one
+            return Lambda(make_fn(0, tags[0]), x, keep=(y > 0))
+        if kind == "la_int":    # a mapped INTEGER array leaf
+            return Lambda(make_fn(0, tags[0]), x, shift=jnp.floor(3 * y).astype(int))
         if kind == "br":
             return CBR(x, B.Exp(), tags[0], invert_on_init=False)
         if kind == "br_la":
@@ -1083,6 +1087,8 @@ def corr(c, tier, rng):
             for v in viol:
                 c.mismatch("vmapped-unwrap-vs-stack", desc=f"{kind} sizes={sizes}", detail=v)
             c.case((kind, tuple(sizes), "vmapped-stack", i), True)
+            if kind in ("la_bool", "la_int"):
+                continue  # non-float mapped leaves: real-vs-real stack oracle only (the tree model's Lambda functions are float-valued)
             enc = compare_tree(c, batch, V, f"vmapped:{kind}:{sizes}", L=levels, nontrivial=True)
             # per-slice tree of the model == individually built real tree
             i0 = rng.randrange(sizes[0])
